@@ -330,6 +330,11 @@ def run_chain(case, ctx):
                 strata.add('irregular-reblock-chain')
             with env.quiet():
                 with SgzConverter(cur) as c:
+                    if rng.random() < 0.5 and sp.stored:
+                        # the converter is a reader too: per-trace headers (unpadded arrays) read through it before it writes
+                        c.gen_trace_header(sp.ntr - 1)
+                        c.gen_trace_header(0)
+                        strata.add('reblock-after-header-reads')
                     c.convert_to_adv_sgz(nxt)
             t = {'shape': sp.shape, 'rate': 2, 'bs': (64, 64, 4), 'ilines': sp.ilines(), 'xlines': sp.xlines(), 'samples': sp.samples(),
                  'ntraces': sp.ntr, 'data_image': V, 'fields': F, 'file_header': sp.file_header, 'hash': sp.hash, 'version': sp.version}
